@@ -49,6 +49,13 @@ CHECKS.update({
   note="Trusted: z3/CrossHair, the reference implementation in vf/h_presched.py. Stubs: coptrs absent, thread pool map sequential. Outside: the coptrs native path, larger DAGs."),
 })
 
+CHECKS.update({
+ "C12": dict(category="other", design_ref="DESIGN.md §4 C12",
+  technique="solver-driven exhaustive enumeration (CrossHair/z3 decision tree) of generated DAGs through the real serialise/deserialise, JSON and Cascade file round-trips",
+  text="Every generated DAG within the bound (<=2 nodes full, 3 nodes restricted in quick; <=3 full, 4 restricted in thorough; 0-2 inputs per node, output kinds default / two named / none - so terminal nodes with and without outputs and multi-output nodes occur - payload palettes) and six fluent-built graphs go through deserialise(serialise(g)), from_json(to_json(g)) and Cascade.serialise/from_serialised over an in-memory file. The result must have exactly the generated structure (names, outputs, inputs, payloads - compared by the harness, independent of Graph.__eq__) and be equal by Graph.__eq__ in both directions.",
+  note="Trusted: z3/CrossHair, json and dill (C/py libraries, concrete values only). Unique names n0..nk. Outside: payloads dill cannot pickle; bigger graphs."),
+})
+
 NA_REASON = "check not built yet in this round (planned, see DESIGN.md §4); not claimed until its harness exists and passes on the unchanged tree"
 
 def main():
